@@ -11,7 +11,7 @@ for d in sorted(glob.glob(os.path.join(V, 'seeded', '*'))):
     own = [x for x in det if x['property'] == m['property']]
     n += 1; hit += 1 if own else 0
     oa = (m.get('on_arrival') or '').lower()
-    arr['caught' if oa.startswith('caught') else 'missed' if oa.startswith('missed') else 'other'] += 1
+    arr['caught' if (oa.startswith('caught') or oa.startswith('reported on arrival')) else 'missed' if oa.startswith('missed') else 'other'] += 1
     rep = '; '.join('%s: %s' % (x['property'], ', '.join(x['rules'])) for x in det) or '**not reported**'
     rows.append('| `%s` | %s | %s | %s | %s |' % (m['id'], m['property'], m['needs_to_manifest'].replace('|', '/'), rep, m.get('on_arrival', '')))
 rows.append('')
